@@ -312,6 +312,29 @@ Section Ultra.
     unfold long at 1. fold (dlen e). destruct (below thr (dlen e)); simpl; [exact IH|discriminate].
   Qed.
 
+  Lemma pass1_acc_nonempty l : forall acc, acc <> [] -> ultra_pass1 thr minT l acc <> [].
+  Proof.
+    induction l as [|e l IH]; intros acc H; cbn [ultra_pass1].
+    - intro E. apply H. apply (f_equal (@rev dentry)) in E. now rewrite rev_involutive in E.
+    - destruct (below thr (de e - ds e)); destruct acc as [|lst acc']; try congruence; apply IH; discriminate.
+  Qed.
+
+  Lemma pass1_some_long l : existsb (long thr) l = true -> ultra_pass1 thr minT l [] <> [].
+  Proof.
+    induction l as [|e l IH]; cbn [existsb ultra_pass1]; [discriminate|].
+    unfold long at 1. unfold dlen.
+    destruct (below thr (de e - ds e)); cbn [negb orb]; [exact IH|].
+    intros _. apply pass1_acc_nonempty. discriminate.
+  Qed.
+
+  (* with an interval that reaches the threshold the repaired function is the old one *)
+  Lemma ru_legacy l : existsb (long thr) l = true ->
+    remove_ultrashort thr minT l = remove_ultrashort_legacy thr minT l.
+  Proof.
+    intro H. unfold remove_ultrashort, remove_ultrashort_legacy.
+    pose proof (pass1_some_long l H) as NE. destruct (ultra_pass1 thr minT l []); [congruence|reflexivity].
+  Qed.
+
   Lemma pass1_nonempty_after l a acc :
     long thr a = true -> rev (ultra_pass1 thr minT (l ++ [a]) acc) <> [].
   Proof.
@@ -327,7 +350,7 @@ Section Ultra.
     /\ forallb (long thr) (remove_ultrashort thr minT l) = true
     /\ map dl (remove_ultrashort thr minT l) = map dl (filter (long thr) l).
   Proof.
-    intros HP HE. unfold remove_ultrashort.
+    intros HP HE. rewrite (ru_legacy l HE). unfold remove_ultrashort_legacy.
     destruct (pass1_inv hi l [] minT HP) as (A & B); auto; try lia.
     rewrite (pass2_partition _ _ _ A). repeat split; auto. apply pass1_labels.
   Qed.
@@ -340,9 +363,10 @@ Section Ultra.
     match l2 with b :: _ => long thr b = true | [] => True end ->
     In e (remove_ultrashort thr minT l).
   Proof.
-    intros HP -> Le Ha Hb. unfold remove_ultrashort.
+    intros HP -> Le Ha Hb.
     assert (existsb (long thr) (l1 ++ e :: l2) = true) as HE.
     { apply existsb_exists. exists e. split; [apply in_or_app; right; left; reflexivity|exact Le]. }
+    rewrite (ru_legacy _ HE). unfold remove_ultrashort_legacy.
     destruct (pass1_inv hi _ [] minT HP) as (A & _); auto; try lia.
     rewrite (pass2_partition _ _ _ A).
     rewrite pass1_app.
@@ -371,8 +395,52 @@ Section Ultra.
 
   (* every interval shorter than the threshold: nothing is written (the recorded
      finding F19 -- the clause 'partition of the span' fails for such a tier) *)
-  Theorem ultra_all_short l : existsb (long thr) l = false -> remove_ultrashort thr minT l = [].
-  Proof. intro H. unfold remove_ultrashort. rewrite pass1_all_short; auto. Qed.
+  Theorem ultra_all_short_legacy l : existsb (long thr) l = false -> remove_ultrashort_legacy thr minT l = [].
+  Proof. intro H. unfold remove_ultrashort_legacy. rewrite pass1_all_short; auto. Qed.
+
+  (* every interval shorter than the threshold (after the repair of F19): one blank interval from the
+     tier's start to the last end, so the tier still covers its span *)
+  Lemma last_opt_partition : forall l lo hi e, partitionb lo l = Some hi -> last_opt l = Some e -> de e = hi.
+  Proof.
+    induction l as [|a l IH]; intros lo hi e HP HL; [discriminate|].
+    cbn [partitionb] in HP. destruct ((ds a =? lo) && (ds a <? de a)) eqn:E; [|discriminate].
+    destruct l as [|b l'].
+    - cbn [partitionb] in HP. cbn [last_opt] in HL. injection HL as <-. now injection HP as <-.
+    - cbn [last_opt] in HL. exact (IH _ _ _ HP HL).
+  Qed.
+
+  Lemma partition_le : forall l lo hi, partitionb lo l = Some hi -> lo <= hi.
+  Proof.
+    induction l as [|a l IH]; intros lo hi HP; cbn [partitionb] in HP; [injection HP as <-; lia|].
+    destruct ((ds a =? lo) && (ds a <? de a)) eqn:E; [|discriminate]. apply andb_prop in E as [E1 E2].
+    specialize (IH _ _ HP). lia.
+  Qed.
+
+  Theorem ultra_all_short l hi :
+    partitionb minT l = Some hi -> l <> [] -> existsb (long thr) l = false ->
+    remove_ultrashort thr minT l = [DI minT hi []].
+  Proof.
+    intros HP NE H. unfold remove_ultrashort. rewrite pass1_all_short by auto.
+    destruct (last_opt l) as [e|] eqn:EL.
+    - rewrite (last_opt_partition _ _ _ _ HP EL). reflexivity.
+    - destruct l as [|a l']; [congruence|]. exfalso. clear - EL. revert a EL. induction l' as [|b l' IH]; intros a EL; [discriminate|].
+      cbn [last_opt] in EL. exact (IH b EL).
+  Qed.
+
+  (* hence: whatever the lengths, a non-empty partition of a span stays a partition of that span *)
+  Theorem ultra_partition_always l hi :
+    partitionb minT l = Some hi -> l <> [] ->
+    partitionb minT (remove_ultrashort thr minT l) = Some hi.
+  Proof.
+    intros HP NE. destruct (existsb (long thr) l) eqn:HE.
+    - exact (proj1 (ultra_partition l hi HP HE)).
+    - rewrite (ultra_all_short l hi HP NE HE). cbn [partitionb ds de]. rewrite Z.eqb_refl.
+      assert (minT < hi) as LT.
+      { destruct l as [|a l']; [congruence|]. cbn [partitionb] in HP.
+        destruct ((ds a =? minT) && (ds a <? de a)) eqn:E; [|discriminate]. apply andb_prop in E as [E1 E2].
+        pose proof (partition_le _ _ _ HP). lia. }
+      assert (minT <? hi = true) as -> by lia. reflexivity.
+  Qed.
 End Ultra.
 
 (* ------------------------------------------------------------------ *)
